@@ -4,6 +4,7 @@ C15 (structural layer) — logarithms: exact points and domain errors as the cod
 -/
 import TFV.Spec.Defs
 import TFV.Lemmas.Ident
+import TFV.Lemmas.LnCore
 
 namespace C15
 
@@ -15,33 +16,46 @@ theorem zero_words : zero = ⟨F64.zero, F64.zero⟩ := by decide +kernel
 
 /-- `ln 1 = 0`: the `self == 1.0` branch -/
 theorem ln_one (x : TwoFloat) (h : base.impl_PartialEq_f64_for_TwoFloat.eq x (f64lit 0x3ff0000000000000) = true) :
-    TwoFloat.ln x = zero := by
-  unfold TwoFloat.ln
-  simp only [h, if_true]
+    TwoFloat.ln x = zero :=
+  LnCore.ln_go_succ_one 7 x h
 
 /-- `ln x = NAN` for `x ≤ 0` (the comparison is the crate's `PartialOrd<f64>`); the `== 1.0` test before it
 cannot fire -/
 theorem ln_nonpos (x : TwoFloat)
     (h : ROrd.isLe (base.impl_PartialOrd_f64_for_TwoFloat.partial_cmp x (f64lit 0)) = true) :
-    TwoFloat.ln x = TwoFloat.NAN := by
-  unfold TwoFloat.ln
-  simp [Ident.tf_le_zero_imp_ne_one x h, h]
+    TwoFloat.ln x = TwoFloat.NAN :=
+  LnCore.ln_go_succ_nonpos 7 x (Ident.tf_le_zero_imp_ne_one x h) h
 
 theorem ln_pf_one (x : TwoFloat) (h : base.impl_PartialEq_f64_for_TwoFloat.eq x (f64lit 0x3ff0000000000000) = true) :
-    TwoFloat.ln.pf x = true := by
-  unfold TwoFloat.ln.pf
-  simp only [h, if_true]
+    TwoFloat.ln.pf x = true :=
+  LnCore.ln_go_pf_succ_one 7 x h
 
 theorem ln_pf_nonpos (x : TwoFloat)
     (h : ROrd.isLe (base.impl_PartialOrd_f64_for_TwoFloat.partial_cmp x (f64lit 0)) = true) :
-    TwoFloat.ln.pf x = true := by
-  unfold TwoFloat.ln.pf
-  simp [Ident.tf_le_zero_imp_ne_one x h, h]
+    TwoFloat.ln.pf x = true :=
+  LnCore.ln_go_pf_succ_nonpos 7 x h
 
-/-- the generic branch: an f64 estimate followed by three Newton steps `x += v·exp(−x) − 1` -/
-theorem ln_general (v : TwoFloat)
+/-- the generic branch of the core: an f64 estimate followed by three Newton steps `x += v·exp(−x) − 1` -/
+theorem lnCore_general (v : TwoFloat)
     (h1 : base.impl_PartialEq_f64_for_TwoFloat.eq v (f64lit 0x3ff0000000000000) = false)
     (h2 : ROrd.isLe (base.impl_PartialOrd_f64_for_TwoFloat.partial_cmp v (f64lit 0)) = false) :
+    TwoFloat.lnCore v =
+      (let step (x : TwoFloat) : TwoFloat :=
+         (v *. TwoFloat.exp (arithmetic.impl_Neg_for_TwoFloat.neg x)) -. (f64lit 0x3ff0000000000000)
+       let x0 : TwoFloat := ⟨Libm.log v.hi, f64lit 0⟩
+       let x1 := x0 +. step x0
+       let x2 := x1 +. step x1
+       (x2 +. (v *. TwoFloat.exp (arithmetic.impl_Neg_for_TwoFloat.neg x2))) -. (f64lit 0x3ff0000000000000)) := by
+  unfold TwoFloat.lnCore
+  simp only [h1, h2]
+  rfl
+
+/-- the generic branch (high word not below `2^-1000`): an f64 estimate followed by three Newton steps
+`x += v·exp(−x) − 1` -/
+theorem ln_general (v : TwoFloat)
+    (h1 : base.impl_PartialEq_f64_for_TwoFloat.eq v (f64lit 0x3ff0000000000000) = false)
+    (h2 : ROrd.isLe (base.impl_PartialOrd_f64_for_TwoFloat.partial_cmp v (f64lit 0)) = false)
+    (h3 : (v.hi <. f64lit 0x0170000000000000) = false) :
     TwoFloat.ln v =
       (let step (x : TwoFloat) : TwoFloat :=
          (v *. TwoFloat.exp (arithmetic.impl_Neg_for_TwoFloat.neg x)) -. (f64lit 0x3ff0000000000000)
@@ -49,9 +63,17 @@ theorem ln_general (v : TwoFloat)
        let x1 := x0 +. step x0
        let x2 := x1 +. step x1
        (x2 +. (v *. TwoFloat.exp (arithmetic.impl_Neg_for_TwoFloat.neg x2))) -. (f64lit 0x3ff0000000000000)) := by
-  unfold TwoFloat.ln
-  simp only [h1, h2]
-  rfl
+  rw [LnCore.ln_eq_lnCore v h3]
+  exact lnCore_general v h1 h2
+
+/-- the rescaling branch (positive argument with high word below `2^-1000`): `ln v = ln (v·2^200) − 200·LN_2`,
+one level of the recursion (the inner call has fuel 7) -/
+theorem ln_tiny (v : TwoFloat)
+    (h1 : base.impl_PartialEq_f64_for_TwoFloat.eq v (f64lit 0x3ff0000000000000) = false)
+    (h2 : ROrd.isLe (base.impl_PartialOrd_f64_for_TwoFloat.partial_cmp v (f64lit 0)) = false)
+    (h3 : (v.hi <. f64lit 0x0170000000000000) = true) :
+    TwoFloat.ln v = TwoFloat.ln.go 7 (v *. f64lit 0x4c70000000000000) -. ((f64lit 0x4069000000000000) *. consts.LN_2) :=
+  LnCore.ln_go_succ_tiny 7 v h1 h2 h3
 
 /-! ### `log2` -/
 
